@@ -506,6 +506,40 @@ def summarizer_tables(F, rep, rule="C05.6"):
                         inc.append("the reported data are %r" % (data,))
                     elif ds != sorted(set(labels)):
                         problems.append("observations labelled %s are summarised as %s; specified: the distinct labels in ascending order %s" % (list(labels), ds, sorted(set(labels))))
+        # ---- group sizes one past every size constant the summarizer mentions (caps, cut-offs): only the LAST observation carries
+        # (symbolic) extensions — they must still reach the summary; the count may saturate at the type's maximum
+        from .dt_graph import size_thresholds
+        for c in size_thresholds(F, body)[:2]:
+            n = c + 1
+
+            def mk_big(script):
+                h = LinOracles(script)
+                h.assume({"min": 1}, lo=0)
+                return h
+
+            def run_big(h, n=n):
+                it = Interp(F, False, h)
+                it.max_steps = 200 * n + 1000000
+                me = struct_of(F, adt, {"min_kmer_obs": atom_int(64, "min")})
+                empty = Adt(EXTS, 0, [Int(8, False, val=0)])
+                items = [Tup([Opaque("K", {"kmer"}), empty, Int(32, False, val=7) if kind == "set" else Opaque("D", {"d"}, {"d": 0})]) for i in range(n - 1)]
+                items.append(Tup([Opaque("K", {"kmer"}), exts_sym("elast"), Int(32, False, val=7) if kind == "set" else Opaque("D", {"d"}, {"d": 0})]))
+                return it.call_body(body, [Ref(Cell(me, "self")), IterV("owned", (Ref(Cell(VecV(items), "items")), 0, n))])
+            for a, out, h in explore(mk_big, run_big):
+                rows += 1
+                rep.evaluations += 1
+                if isinstance(out, tuple) and out and out[0] == "inconclusive":
+                    inc.append(out[1])
+                    continue
+                if isinstance(out, tuple) and out and out[0] == "diverge":
+                    problems.append("summarize diverges on a group of %d observations: %s" % (n, out[1]))
+                    continue
+                ex = out.fields[1]
+                ev = ex.fields[0] if isinstance(ex, Adt) else None
+                want = [var("elast", j) for j in range(4)] + [var("elast", j) for j in range(4, 8)]
+                if not (isinstance(ev, Int) and list(ev.getbits()) == list(exts_sym("elast").fields[0].getbits())):
+                    problems.append("in a group of %d observations the extensions of the last observation do not reach the summary (summarised extensions: %r) — "
+                                    "observations beyond a cap of %d are not read" % (n, ev, c))
         if problems:
             rep.violated(rule, nm, "%s::summarize: %s" % (nm, problems[0]), site=F.site(body, body["line"]), witness={"kind": "row", "count": len(problems)})
         elif inc:
